@@ -117,7 +117,7 @@ def _ev(tu, f, e, env, fields, depth):
     raise Unknown()
 
 
-def returns(tu, f, args, fields=None, depth=0):
+def returns(tu, f, args, fields=None, depth=0, on_return=None):
     """set of values f can return when called with `args` (ints, None = unknown, or a dict field-path -> int for a pointer
     to a structure); `fields` maps global access paths to values."""
     fields = fields or {}
@@ -142,6 +142,8 @@ def returns(tu, f, args, fields=None, depth=0):
         stop = False
         for e in blk.el[i:]:
             if e.k == "ReturnStmt":
+                if on_return is not None:
+                    on_return(e, dict(env))          # which return statement is reached, and under which environment
                 if e.c and e.c[0] is not None:
                     try:
                         out.add(_ev(tu, f, e.c[0], env, fields, depth))
